@@ -35,6 +35,18 @@ pub trait Backend: Send + Sync {
     fn seek(&self, fd: u64, pos: io::SeekFrom) -> io::Result<u64>;
     fn fsync(&self, fd: u64) -> io::Result<()>;
     fn close(&self, fd: u64);
+    /// `rename(2)`; only needed by code that replaces files atomically.
+    fn rename(&self, _from: &Path, _to: &Path) -> io::Result<()> {
+        Err(io::Error::new(io::ErrorKind::Unsupported, "rename"))
+    }
+    /// `unlink(2)`.
+    fn remove_file(&self, _path: &Path) -> io::Result<()> {
+        Err(io::Error::new(io::ErrorKind::Unsupported, "remove_file"))
+    }
+    /// `stat(2)`: `(is_dir, len)` of an existing path.
+    fn stat(&self, _path: &Path) -> io::Result<(bool, u64)> {
+        Err(io::Error::new(io::ErrorKind::Unsupported, "stat"))
+    }
     /// Called before the real `Mutex::lock`; returns once the caller may take the lock.
     fn lock_acquire(&self, label: &'static str);
     /// Called after the real guard has been dropped.
@@ -256,6 +268,82 @@ pub fn create_dir_all<P: AsRef<Path>>(path: P) -> io::Result<()> {
     Ok(())
 }
 
+/// `std::fs::write` over the seam.
+pub fn write<P: AsRef<Path>, C: AsRef<[u8]>>(path: P, contents: C) -> io::Result<()> {
+    use io::Write;
+    File::create(path)?.write_all(contents.as_ref())
+}
+
+/// `std::fs::read` over the seam.
+pub fn read<P: AsRef<Path>>(path: P) -> io::Result<Vec<u8>> {
+    use io::Read;
+    let mut buf = Vec::new();
+    OpenOptions::new().read(true).open(path)?.read_to_end(&mut buf)?;
+    Ok(buf)
+}
+
+/// `std::fs::read_to_string` over the seam.
+pub fn read_to_string<P: AsRef<Path>>(path: P) -> io::Result<String> {
+    use io::Read;
+    let mut buf = String::new();
+    OpenOptions::new().read(true).open(path)?.read_to_string(&mut buf)?;
+    Ok(buf)
+}
+
+/// `std::fs::rename` over the seam.
+pub fn rename<P: AsRef<Path>, Q: AsRef<Path>>(from: P, to: Q) -> io::Result<()> {
+    match backend() {
+        Some(b) => b.rename(from.as_ref(), to.as_ref()),
+        None => std::fs::rename(from, to),
+    }
+}
+
+/// `std::fs::remove_file` over the seam.
+pub fn remove_file<P: AsRef<Path>>(path: P) -> io::Result<()> {
+    match backend() {
+        Some(b) => b.remove_file(path.as_ref()),
+        None => std::fs::remove_file(path),
+    }
+}
+
+/// `std::fs::create_dir` over the seam.
+pub fn create_dir<P: AsRef<Path>>(path: P) -> io::Result<()> {
+    match backend() {
+        Some(b) => b.mkdir(path.as_ref()),
+        None => std::fs::create_dir(path),
+    }
+}
+
+/// What `std::fs::metadata` is used for here: kind and length.
+pub struct PathMetadata {
+    is_dir: bool,
+    len: u64,
+}
+
+impl PathMetadata {
+    pub fn is_dir(&self) -> bool {
+        self.is_dir
+    }
+    pub fn is_file(&self) -> bool {
+        !self.is_dir
+    }
+    #[allow(clippy::len_without_is_empty)]
+    pub fn len(&self) -> u64 {
+        self.len
+    }
+}
+
+/// `std::fs::metadata` over the seam.
+pub fn metadata<P: AsRef<Path>>(path: P) -> io::Result<PathMetadata> {
+    match backend() {
+        Some(b) => b.stat(path.as_ref()).map(|(is_dir, len)| PathMetadata { is_dir, len }),
+        None => std::fs::metadata(path).map(|m| PathMetadata {
+            is_dir: m.is_dir(),
+            len: m.len(),
+        }),
+    }
+}
+
 /// Stands in for the name `std` inside the hooked function bodies
 /// (`use crate::verif_seam::std_shim as std;`): `fs` and `env` go to the seam, everything
 /// else those bodies name is the real thing.
@@ -263,7 +351,10 @@ pub mod std_shim {
     pub use ::std::{any, borrow, collections, ffi, fmt, io, path, sync};
 
     pub mod fs {
-        pub use crate::verif_seam::{create_dir_all, File, OpenOptions};
+        pub use crate::verif_seam::{
+            create_dir, create_dir_all, metadata, read, read_to_string, remove_file, rename, write,
+            File, OpenOptions,
+        };
     }
 
     pub mod env {
